@@ -17,6 +17,14 @@ def clear_proposal_dist_caches():
     # _convolve_two_children.cache_clear()
 
 
+def clear_convolution_caches():
+    """The recursion caches are keyed by the children's contents regardless of their order, while the cached value depends on
+    that order in its last bits: what a call returns depends on what the process computed before. Emptying them when a chain
+    starts makes a chain's trace independent of the other work of its process."""
+    compute_log_S.cache_clear()
+    _convolve_two_children.cache_clear()
+
+
 def print_cache_info():
     print("\n***********************************************************")
     print(
